@@ -80,6 +80,24 @@ def run(ctx):
         q = m.q(f)
         cs = [c for c in q.calls() if c.target is not None and c.target.crate.name == "bourse_book" and not (c.target.impl_trait or "").startswith(("std::convert", "core::convert"))]
         ok = len(cs) == 1 and cs[0].name == core and not cs[0].guards and cs[0].args[0][0] == "field" and cs[0].args[0][1] == ("param", 1, "self")
+        if not ok and not params and token_side(name) is not None:
+            # alternative spelling of a side getter: read from the core's level-1 record (possibly through a private helper
+            # parameterised by the side): every field read must be of the wrapper's own side and quantity
+            r = pv.q(f).ret()
+            side = token_side(name)
+            want = {"%s_vol" % side: ["%s_vol" % side], "best_%s_vol" % side: ["%s_touch_vol" % side],
+                    "best_%s_vol_and_orders" % side: ["%s_touch_vol" % side, "%s_touch_orders" % side]}.get(name)
+            parts = list(r[3]) if r[0] == "agg" and r[1] == "tuple" else [r]
+            got = []
+            for e in parts:
+                root, names = field_chain(e)
+                names = [n for n in names if not n.startswith("as ")]
+                src_ok = root[0] == "call" and root[4] in ("level_1_data", "level_2_data") and root[2] and field_chain(root[2][0])[0] == ("param", 1, "self")
+                got.append(names[-1] if (names and src_ok) else "?" + render(e)[:30])
+            if want is not None and any(x[0] == "call" and x[4] in ("level_1_data", "level_2_data") for x in walk(r)):
+                ctx.check(got == want, "qualifier", "OrderBook.%s|record" % name, ctx.loc(f), "OrderBook.%s reads %s of the core's level data" % (name, want),
+                          "OrderBook.%s returns %s of the core's level data (expected %s: the wrapper's own side and quantity)" % (name, got, want))
+                continue
         ctx.check(ok, "forward", "OrderBook.%s|callee" % name, ctx.loc(f), "OrderBook.%s -> core %s, once, unconditionally" % (name, core),
                   "OrderBook.%s calls %s" % (name, [c.text()[:60] for c in cs]))
         if not ok:
